@@ -378,16 +378,24 @@ func (ps *Points) Collapse() {
 		return
 	}
 
-	pts := make(map[string]Point)
+	// a blank key means key "0", and type and key must not run into each
+	// other ("ab"+"" is not the same point as "a"+"b")
+	type typeKey struct{ typ, key string }
+
+	pts := make(map[typeKey]Point)
 
 	for _, p := range *ps {
-		pA, OK := pts[p.Type+p.Key]
+		k := typeKey{p.Type, p.Key}
+		if k.key == "" {
+			k.key = "0"
+		}
+		pA, OK := pts[k]
 		if OK {
 			if pA.Time.Before(p.Time) || pA.Time.Equal(p.Time) {
-				pts[p.Type+p.Key] = p
+				pts[k] = p
 			}
 		} else {
-			pts[p.Type+p.Key] = p
+			pts[k] = p
 		}
 	}
 
